@@ -8,13 +8,13 @@
 #endif
 
 // sets without rematch/minus (cost): lazy, tree, coverage
-#if SIM_SET == 3 || SIM_SET == 4 || SIM_SET == 5
+#if SIM_SET == 3 || SIM_SET == 4 || SIM_SET == 5 || SIM_SET == 9
 #define SIM_SET_REMATCH 0
 #else
 #define SIM_SET_REMATCH 1
 #endif
 
-#if SIM_SET == 4
+#if SIM_SET == 4 || SIM_SET == 9
 #define SIM_SET_TREEOPS 1
 #endif
 #if SIM_SET == 5
@@ -58,9 +58,19 @@ namespace sim
 #define SET_ST sim::sim_state&
 #define SET_PLAIN 1
 #elif SIM_SET == 4
+// the parse tree over a control WITHOUT unwind(): what parse_tree::parse does by default (normal has none)
 #define SET_NAME "S4"
 #define SET_IN sim::sim_mem< tao::pegtl::tracking_mode::eager >
+#define SET_CTL tao::pegtl::parse_tree::internal::make_control< tao::pegtl::parse_tree::node, sim::sim_selector, sim::ctl2 >::type
+#define SET_TREE_BASE sim::ctl2
+#define SET_ST sim::sim_state&, sim::tree_state&
+#define SET_PLAIN 0
+#elif SIM_SET == 9
+// ... and over a control with unwind()
+#define SET_NAME "S9"
+#define SET_IN sim::sim_mem< tao::pegtl::tracking_mode::eager >
 #define SET_CTL tao::pegtl::parse_tree::internal::make_control< tao::pegtl::parse_tree::node, sim::sim_selector, sim::sim_control >::type
+#define SET_TREE_BASE sim::sim_control
 #define SET_ST sim::sim_state&, sim::tree_state&
 #define SET_PLAIN 0
 #elif SIM_SET == 5
